@@ -43,7 +43,10 @@ def fold_cfg(cfg, pairs):
     """the oracle's own account of property assignments on a live Memoer: every accepted assignment clamps the stored size to the minimum
     of the code / encoding then in force; an assignment of a code that is not a zeroth code is refused and changes nothing"""
     code, curt, size = cfg
-    for what, val in pairs:
+    for item in pairs:
+        if item[0] == "keep":
+            continue
+        what, val = item
         if what == "code":
             if val not in A.ZCODES:
                 continue
@@ -86,6 +89,18 @@ def simulate(case, counts, f32, f33):
     A receiver that requires signatures ignores the grams of memos rent with an unsigned code.  Closed: datagrams wait in the transport."""
     _c0, _u0, _s0, authic, ki, memos, sched, _h, _p = unpack(case)
     per = cfgs(case)[0]
+    # which key signed each memo (the sender's keep when it was rent) and which key the receiver's keep holds now, per signer id
+    base = {0: 0, 1: 1, 2: 2, 3: 3, A.ROTATED[0]: A.ROTATED[1]}
+    sk_state, signer = dict(base), []
+    for m in memos:
+        for it in (m[3] if len(m) > 3 else ()):
+            if it[0] == "keep":
+                if it[2] is None:
+                    sk_state.pop(it[1], None)
+                else:
+                    sk_state[it[1]] = it[2]
+        signer.append(sk_state.get(ki) if ki is not None else None)
+    rk = dict(base)
     held = {}
     first_src = {}
     done = set()
@@ -94,6 +109,12 @@ def simulate(case, counts, f32, f33):
     for op in A.norm_ops(sched):
         if isinstance(op, str):
             opened = (op == "reopen")
+            continue
+        if op[0] == "keep":
+            if op[2] is None:
+                rk.pop(op[1], None)
+            else:
+                rk[op[1]] = op[2]
             continue
         kind, b = op
         queue += [it for it in b if it[0] < len(memos) and counts[it[0]]]
@@ -105,6 +126,8 @@ def simulate(case, counts, f32, f33):
             signed = per[mi][0] in A.SIGNED
             if authic and not signed:
                 continue
+            if signed and ki is not None and ki % 2 == 1 and rk.get(ki) != signer[mi]:
+                continue            # a transferable id is verified against the key the receiver holds NOW: signed with another key -> refused
             if not f33 and mi in done:
                 continue
             h = held.setdefault(mi, set())
@@ -161,7 +184,8 @@ class C20(core.Check):
                   "(real rend with real pysodium -> scheduled delivery -> real serviceAllRx vs the compiled model); the four receive dicts modelled as one "
                   "list of entries (their key sets coincide from the empty state); CPython utf-8 and float ceil as stated in assumptions. "
                   "Pre-finding F31 reproduced and repaired for the count formula (fix/memo eb96733); its small-size half is K1 (pinned by the tree's test).")
-    rule = ("transmit side by rend, or memoit + serviceTxMemos / serviceTxMemosOnce; sender re-configured between memos in a quarter of the multi-memo "
+    rule = ("signed multi-memo cases with a transferable id often ROTATE its key on both ends between memos (later memos signed with the new key, "
+            "replays with the retired one); transmit side by rend, or memoit + serviceTxMemos / serviceTxMemosOnce; sender re-configured between memos in a quarter of the multi-memo "
             "cases; receive side by serviceAllRx / service() / serviceAllRxOnce / serviceReceives+serviceRxGrams with close / reopen in between; rarely the empty memo or a "
             "signer without a key. cases: half of them reach their configuration by a HISTORY of property assignments on a live Memoer (constructor with other values, then "
             ".size/.code/.curt in any order, repeated, rarely a refused code) before rend; zeroth code in {plain, auth, sure, sure+auth} x {Base64, Base2 headers}; gram size from the setter minimum up (mostly minimum+0..40 so "
@@ -210,6 +234,12 @@ class C20(core.Check):
             ("e2e", "bAAE", True, 30, False, 1, [(b"m" * 50, 1, 1)], [[(0, 0), (0, 1), (0, 2)]], [("size", 130), ("size", 130), ("code", "bAAG"), ("curt", False), ("curt", False)]),
             ("e2e", "bAAA", False, 50, False, None, [(b"m", 1, 1)], [[(0, 0)]], [("code", "bAAB")]),                  # refused: not a zeroth code
             ("e2e", "bAAG", False, 400, False, 2, [(b"m" * 300, 1, 1)], [[(0, 1), (0, 0)]], [("code", "bAAE"), ("size", 40), ("curt", True), ("size", 60)]),
+            # key ROTATION between memos (seeded change C20-r3m2): memo 0 signed under key 1 delivered, both keeps rotate vid 1 to key 6, memo 1 signed
+            # under key 6 must be delivered once with the same signer id; a replay of memo 0 (retired key) is refused
+            ("e2e", "bAAC", False, 200, True, 1, [(b"first " * 20, 1, 1), (b"second " * 20, 2, 1, [("keep", 1, 6)])],
+             [("all", [(0, 0), (0, 0), (0, 1), (0, 2), (0, 3)]), ("keep", 1, 6), ("all", [(1, 0), (1, 1), (1, 1), (1, 2), (1, 3), (1, 4)]), ("all", [(0, 0), (0, 1), (0, 2), (0, 3)])], [], "rend"),
+            ("e2e", "bAAG", True, 150, True, 3, [(b"first " * 20, 1, 1), (b"second " * 20, 2, 1, [("keep", 3, 2)])],
+             [("once", [(0, 0)]), ("all", [(0, 1), (0, 2), (0, 3), (0, 4), (0, 5)]), ("keep", 3, 2), ("all", [(1, 0), (1, 2), (1, 1), (1, 3), (1, 4), (1, 5), (1, 6)])], [], "rend"),
         ]
 
     def exhaustive(self, tier):
@@ -298,7 +328,13 @@ class C20(core.Check):
             for (t, *_r), (c_, u_, z_) in zip(memos, cc[0] if cc else [(code, curt, esz)] * nm):
                 zo_, no_ = A.ref_overheads(c_, False)
                 zb_, nb_ = z_ - (3 * zo_ // 4 if u_ else zo_), z_ - no_
-                counts.append(max(1, A.ref_count(len(t), zb_, nb_)) if nb_ >= 1 else 1)
+                cnt_ = max(1, A.ref_count(len(t), zb_, nb_)) if nb_ >= 1 else 1
+                if cnt_ > 60:       # the history left a small gram size: keep the case a reasonable size
+                    jx = len(counts)
+                    t2 = bytes(t)[:zb_ + 59 * nb_].decode("utf-8", "ignore").encode() or b"a"
+                    memos[jx] = (t2,) + tuple(memos[jx][1:])
+                    cnt_ = max(1, A.ref_count(len(t2), zb_, nb_))
+                counts.append(cnt_)
             signed = any(c_[0] in A.SIGNED for c_ in cc[0]) if cc else signed
             per = []
             for mi, c in enumerate(counts):
@@ -352,6 +388,16 @@ class C20(core.Check):
                     ops += ["close", (rng.choice(["all", "once"]), [rng.choice(seq)] if seq and rng.random() < 0.6 else []), "reopen"]
             if style < 0.3 or any(not isinstance(o, str) and o[0] in ("once", "rxg") for o in ops):
                 ops += [("once", [])] * rng.randrange(1, 4) + [("all", [])]
+            # key ROTATION between memos: a transferable ('D') signer id whose key is replaced on both ends after the receiver has verified grams
+            # under the old one; later memos are signed with the new key, replays of earlier memos carry the retired one
+            if cc and nm > 1 and ki in (1, 3) and all(c_[0] in A.SIGNED for c_ in cc[0]) and rng.random() < 0.6:
+                j = rng.randrange(1, nm)
+                newk = rng.choice([6, 2, 4])
+                memos[j] = tuple(memos[j][:3]) + (list(memos[j][3] if len(memos[j]) > 3 else []) + [("keep", ki, newk)],)
+                svc = [o for o in ops if not isinstance(o, str)]
+                early = [(o[0], [x for x in o[1] if x[0] < j]) for o in svc]
+                late = [(o[0], [x for x in o[1] if x[0] >= j or rng.random() < 0.3]) for o in svc]
+                ops = early + [("keep", ki, newk)] + late + [("once", []), ("all", [])]
             yield ("e2e",) + c0 + (authic, ki, memos, ops, hist, rng.choice(["rend", "rend", "all", "once"]))
 
     # ---- running
@@ -369,8 +415,10 @@ class C20(core.Check):
     def request(self, case):
         code, curt, size, authic, ki, memos, sched, hist, _txpath = unpack(case)
         _obs, stab, vtab, _esz = self._run(case)
-        enc = lambda pairs: tuple((w, v.encode() if w == "code" else (bool(v) if w == "curt" else v)) for w, v in pairs)
-        ops = tuple(op if isinstance(op, str) else (op[0] if op[0] in ("once", "rxg") else "all", tuple(tuple(x) for x in op[1])) for op in A.norm_ops(sched))
+        enc = lambda pairs: tuple((it[0], it[1].encode() if it[0] == "code" else (bool(it[1]) if it[0] == "curt" else it[1])) for it in pairs if it[0] != "keep")
+        ops = tuple(op if isinstance(op, str) else (
+            ("keep", A.key(op[1])["vid"].encode(), A.key(op[2])["qvk"].encode() if op[2] is not None else None) if op[0] == "keep" else
+            (op[0] if op[0] in ("once", "rxg") else "all", tuple(tuple(x) for x in op[1]))) for op in A.norm_ops(sched))
         return ("e2e", ("code", code.encode()), ("curt", bool(curt)), ("size", size),
                 ("hist",) + tuple((w, v.encode() if w == "code" else (bool(v) if w == "curt" else v)) for w, v in hist), ("authic", bool(authic)),
                 ("vid", A.key(ki)["vid"].encode() if ki is not None else None), ("stab",) + tuple(stab)) + tuple(vtab) + (
@@ -494,7 +542,7 @@ class C20(core.Check):
             if obs[0][0] != "cfg":
                 return False
             counts = self._counts(obs)
-            flat = [tuple(x) for op in A.norm_ops(unpack(case)[6]) if not isinstance(op, str) for x in op[1]]
+            flat = [tuple(x) for op in A.norm_ops(unpack(case)[6]) if not isinstance(op, str) and op[0] != "keep" for x in op[1]]
             plain = [(mi, g) for mi, c in enumerate(counts) for g in range(c)]
             return any(c >= 2 for c in counts) and flat != plain
         except Exception:
@@ -513,8 +561,12 @@ class C20(core.Check):
         code, curt = obs[0][1].decode(), obs[0][2]
         counts = self._counts(obs)
         ops = A.norm_ops(sched)
-        svc = [op for op in ops if not isinstance(op, str)]
-        f = ["setters=" + str(min(len(hist), 4)), "txpath:" + txpath] + (["reclamped-by-code-or-curt"] if hist and hist[-1][0] != "size" and obs[0][3] > max(
+        svc = [op for op in ops if not isinstance(op, str) and op[0] != "keep"]
+        if len(svc) != len([o for o in ops if not isinstance(o, str)]):
+            f0 = ["key-rotated-between-memos"]
+        else:
+            f0 = []
+        f = f0 + ["setters=" + str(min(len(hist), 4)), "txpath:" + txpath] + (["reclamped-by-code-or-curt"] if hist and hist[-1][0] != "size" and obs[0][3] > max(
             [_s0] + [v for w, v in hist if w == "size"]) else []) + [code, "b2" if curt else "b64", "authic" if authic else "open", f"memos={len(memos)}", f"calls~{min(len(svc), 6)}"]
         f += sorted({"entry:" + op[0] for op in svc}) + (["close/reopen"] if any(isinstance(op, str) for op in ops) else [])
         if any(len(m) > 3 and m[3] for m in memos):
@@ -540,7 +592,7 @@ class C20(core.Check):
         for i in range(len(ops)):
             if len(ops) > 1:
                 yield mk(memos, ops[:i] + ops[i + 1:])
-            if not isinstance(ops[i], str):
+            if not isinstance(ops[i], str) and ops[i][0] != "keep":
                 for j in range(len(ops[i][1])):
                     yield mk(memos, ops[:i] + [(ops[i][0], ops[i][1][:j] + ops[i][1][j + 1:])] + ops[i + 1:])
                 if ops[i][0] != "all":
@@ -548,7 +600,7 @@ class C20(core.Check):
         for i in range(len(memos)):
             if len(memos) > 1:
                 ms = memos[:i] + memos[i + 1:]
-                sc = [op if isinstance(op, str) else (op[0], [(x[0] - (x[0] > i),) + tuple(x[1:]) for x in op[1] if x[0] != i]) for op in ops]
+                sc = [op if isinstance(op, str) or op[0] == "keep" else (op[0], [(x[0] - (x[0] > i),) + tuple(x[1:]) for x in op[1] if x[0] != i]) for op in ops]
                 yield mk(ms, sc)
             if len(memos[i]) > 3 and memos[i][3]:
                 yield mk(memos[:i] + [tuple(memos[i][:3])] + memos[i + 1:], ops)
